@@ -136,6 +136,12 @@ type Case struct {
 	// goroutine publishes Noise unencodable events meanwhile.  Their failures
 	// are reported; every encodable publish still appends exactly one record.
 	Noise int `json:"noise,omitempty"`
+	// Poison: before anything else one event of the struct type the case
+	// publishes most (Plain) is published whose interface-typed field holds a
+	// channel - that value has no JSON encoding, later values of the same Go
+	// type have.  It leaves no record; the publishes that follow are recorded
+	// as if it had never happened.
+	Poison bool `json:"poison,omitempty"`
 }
 
 type obsNop struct{ calls *atomic.Int32 }
@@ -260,6 +266,9 @@ func Run(c *Case) *vkit.Outcome {
 			opts = append(opts, eventbus.WithPanicHandler(func(any, reflect.Type, any) {}))
 		case "perr":
 			opts = append(opts, eventbus.WithPersistenceErrorHandler(func(ev any, _ reflect.Type, err error) {
+				if p, isPlain := ev.(Plain); isPlain && p.ID < 0 {
+					return // the poison value: expected to fail
+				}
 				if _, noise := ev.(Unenc); noise {
 					// expected: the noise publisher's events have no JSON encoding
 					noiseReports.Add(1)
@@ -302,6 +311,9 @@ func Run(c *Case) *vkit.Outcome {
 
 	// inside a handler: the record of this publish is already readable
 	inHandler := func(id int, ev any) {
+		if id < 0 {
+			return // the poison value: delivered, never recorded
+		}
 		handled.Add(1)
 		all, err := readAll(store)
 		if err != nil {
@@ -395,6 +407,14 @@ func Run(c *Case) *vkit.Outcome {
 		expMu.Unlock()
 	}
 
+	if c.Poison {
+		eventbus.Publish(bus, Plain{ID: -1, S: "poison", E: make(chan int)})
+		if evs, _ := readAll(store); len(evs) != 0 {
+			o.Failf("", "options %v: an event without JSON encoding left %d records in the store", c.Options, len(evs))
+			return o
+		}
+		o.Class("unencodable_value_of_the_same_go_type_published_first")
+	}
 	total := 0
 	var order []int // publish order for a single publisher
 	if len(c.Publishers) == 1 {
